@@ -3,6 +3,7 @@ import Goflow.Gen.C05
 import Goflow.Gen.C03
 import Goflow.Gen.C04
 import Goflow.Gen.C07
+import Goflow.Gen.C02
 import Goflow.Gen.C01
 import Goflow.Gen.C15
 import Goflow.Gen.C20
@@ -140,6 +141,19 @@ def execOp (st : DState) (line : String) : DState × Option (List String) :=
     let n := st.staged.length
     let (st', lines) := go { st with staged := [] } st.staged 0 []
     (st', some (("res ok n=" ++ toString n) :: lines))
+  | ["allocpkt", pid, iphex, port, recv, hex, _] =>
+    -- same transition as `pkt`; the budget verdict of the model is `ok` (Proofs/C02.lean bounds every make and object count)
+    match st.pipes.lookup pid, parseHex iphex, parseHex hex with
+    | some (k, cid), some ip, some d =>
+      let cfg := (st.cfgs.lookup cid).getD {}
+      let ps := (st.pstate.lookup pid).getD {}
+      let o := Pipe.decodeFlow k cfg ps ⟨ip, port.toNat!⟩ recv.toNat! d
+      let st' := { st with pstate := (pid, o.state) :: st.pstate.filter (fun e => e.1 != pid) }
+      let r := match o.err with
+        | none => "res ok"
+        | some e => resLine e
+      (st', some [r ++ " n=" ++ toString o.msgs.length ++ " budget=ok"])
+    | _, _, _ => (st, some ["bad-op"])
   | ["poison", _, _] => (st, some ["res ok"])      -- the model has no message pool: every message starts from Reset()
   | ["pkt", pid, iphex, port, recv, hex] =>
     match st.pipes.lookup pid, parseHex iphex, parseHex hex with
@@ -173,6 +187,7 @@ def genOps (prop : String) (seed n : Nat) : List String :=
   | "C03" => Gen.run seed (Gen.C03.gen n)
   | "C04" => Gen.run seed (Gen.C04.gen n)
   | "C07" => Gen.run seed (Gen.C07.gen n)
+  | "C02" => Gen.run seed (Gen.C02.gen n)
   | "C01" => Gen.run seed (Gen.C01.gen n)
   | "C15" => Gen.run seed (Gen.C15.gen n)
   | "C20" => Gen.run seed (Gen.C20.gen n)
